@@ -48,6 +48,17 @@ N0_E == << RouteOf(<<1, 2, 3>>, TRUE) >>
 N0_W == << RouteOf(<<4, 5, 6>>, TRUE) >>
 N0_Routes(nt) == [t \in 1..nt |-> IF t = 3 THEN N0_W ELSE N0_E]
 
+\* ---- N1F: N1 with the Fake marker nodes of the estimated-time network: the alternate branch is opened by a Fake node
+\* after the split (Clear 1) and the two branches meet in a Fake join node before the common Clear event
+WithFake(r, i) == SubSeq(r, 1, i - 1) \o << Nd(3, 0, 0) >> \o SubSeq(r, i, Len(r))
+N1F_E == << WithFake(RouteOf(<<1, 2, 4>>, TRUE), 6), WithFake(WithFake(RouteOf(<<1, 3, 4>>, TRUE), 3), 7) >>
+N1F_W == << WithFake(RouteOf(<<5, 6, 8>>, TRUE), 6), WithFake(WithFake(RouteOf(<<5, 7, 8>>, TRUE), 3), 7) >>
+N1F_Routes(nt) == [t \in 1..nt |-> IF t = 3 THEN N1F_W ELSE N1F_E]
+R_n1f_3 == N1F_Routes(3)
+D_n1f_3 == Dep(3)
+R_n1f_2 == [t \in 1..2 |-> N1F_E]
+D_n1f_2 == Dep(2)
+
 R_n1_2 == N1_Routes(2)
 D_n1_2 == Dep(2)
 R_n1_3 == N1_Routes(3)
@@ -68,6 +79,6 @@ R_n0_3 == N0_Routes(3)
 D_n0_3 == Dep(3)
 
 \* liveness in the model: every fair schedule either gets every train out or is stuck for good
-NoAdvance == \A t \in 1..NT : ~ENABLED Advance(t)
+NoAdvance == \A t \in 1..NT : ~ENABLED Advance(t) /\ ~ENABLED AdvanceFake(t)
 Progress == <>(AllExited \/ [](NoAdvance \/ AllExited))
 =============================================================================
